@@ -47,7 +47,7 @@ def run_repo_sweep(case, res):
     import importlib, io, contextlib
     contracts.install()
     contracts.drain()
-    contracts.CONTEXT.update({'complex_moves': None, 'statuses_cover_all': True, 'positive_recovery': None, 'distinct_times': True})
+    contracts.CONTEXT.update({'complex_moves': None, 'statuses_cover_all': True, 'positive_recovery': None, 'distinct_times': True, 'R0_expected': None})
     simcase.seed_all(case['seed'])
     before = sum(contracts.EVALS.values())
     try:
@@ -88,6 +88,8 @@ def run_monitored(case, res, mine, keyfmt=None):
     contracts.CONTEXT['complex_moves'] = getattr(call, 'moves', None)
     contracts.CONTEXT['statuses_cover_all'] = (call.model != 'generic') or (len(call.return_statuses) == len(call.statuses))
     contracts.CONTEXT['positive_recovery'] = None
+    contracts.CONTEXT['R0_expected'] = list(call.R0) if call.model == 'SIR' else None
+    contracts.CONTEXT['R0_expected_for'] = call.sim
     # simultaneous events are certain with constant durations; summary() merges rows of equal time by design
     contracts.CONTEXT['distinct_times'] = not (call.sim in ('fast_nonMarkov_SIR', 'fast_nonMarkov_SIS') and case['rule']['kind'] == 'const')
     if call.sim == 'fast_nonMarkov_SIR':
